@@ -711,8 +711,10 @@ class tensor:
             )
         rprod = 1 if rdims.size == 0 else np.prod(np.array(tshape)[rdims])
         cprod = 1 if cdims.size == 0 else np.prod(np.array(tshape)[cdims])
+        # Permute without the defensive copy of the public permute so that
+        # copy=False can hand out a reference when the layout allows it.
         data = np.reshape(
-            self.permute(dims).data,
+            to_memory_order(np.transpose(self.data, dims), self.order),
             (rprod, cprod),
             order=self.order,
         )
@@ -1268,9 +1270,7 @@ class tensor:
 
         # Np transpose does error checking on order, acts as permutation
 
-        return ttb.tensor(
-            to_memory_order(np.transpose(self.data, order), self.order), copy=False
-        )
+        return ttb.tensor(np.transpose(self.data, order), copy=True)
 
     def reshape(self, shape: Shape) -> tensor:
         """
@@ -1294,7 +1294,7 @@ class tensor:
         if prod(self.shape) != prod(shape):
             assert False, "Reshaping a tensor cannot change number of elements"
 
-        return ttb.tensor(self.data.reshape(shape, order=self.order), shape, copy=False)
+        return ttb.tensor(self.data.reshape(shape, order=self.order), shape, copy=True)
 
     def scale(
         self,
